@@ -1,4 +1,4 @@
-CONSTANTS Scripts <- ScriptsR  Seqs <- SeqsR  Stacks <- StacksR  OutChoices <- OutsR  MaxIn = 2  MaxOut = 1
+CONSTANTS Sha256 <- SampleHash  Scripts <- ScriptsR  Seqs <- SeqsR  Stacks <- StacksR  OutChoices <- OutsR  MaxIn = 2  MaxOut = 1
 TrailKinds = {"none", "zero", "copy"}  Deviation = "none"
 INIT Init
 NEXT Next
